@@ -61,6 +61,13 @@ def make(kind, n):
 def check_one(kind, n, k, full=True):
     """Raises Violation. Returns the shard sizes."""
     ds, keys = make(kind, n)
+    if keys is not None and (n + k) % 2 == 0:
+        # the dataset was looked at before it is split (keys / items / a lookup): memoised answers of the whole
+        # must not travel into the shards
+        ds.keys()
+        list(ds.items())
+        if n:
+            ds[keys[0]]
     expect = [('s', i) for i in range(n)]
     valid = 1 <= k <= n
     try:
